@@ -125,6 +125,28 @@ func cmdCheck(args []string) int {
 		}
 		unclaimed[parts[0]] = r
 	}
+	// an unclaimed entry may end in '*' (obligation names can contain generator serial numbers)
+	isUnclaimed := func(name string) bool {
+		if _, ok := unclaimed[name]; ok {
+			return true
+		}
+		for pat := range unclaimed {
+			if strings.HasSuffix(pat, "*") {
+				pre := strings.TrimSuffix(pat, "*")
+				if i := strings.Index(pre, "*"); i >= 0 {
+					// one inner wildcard: prefix*suffix*
+					if strings.HasPrefix(name, pre[:i]) && strings.Contains(name[len(pre[:i]):], pre[i+1:]) {
+						return true
+					}
+					continue
+				}
+				if strings.HasPrefix(name, pre) {
+					return true
+				}
+			}
+		}
+		return false
+	}
 	outDir, _ := os.MkdirTemp("", "gvc-"+id+"-")
 	if !*keep {
 		defer os.RemoveAll(outDir)
@@ -269,7 +291,7 @@ func cmdCheck(args []string) int {
 	{
 		kept := obls[:0:0]
 		for _, ob := range obls {
-			if _, un := unclaimed[ob.Name]; un && !ob.MustFail {
+			if un := isUnclaimed(ob.Name); un && !ob.MustFail {
 				unclaimedSeen = append(unclaimedSeen, ob.Name)
 				continue
 			}
@@ -298,7 +320,7 @@ func cmdCheck(args []string) int {
 			}
 			continue
 		}
-		if _, un := unclaimed[r.Ob.Name]; un {
+		if un := isUnclaimed(r.Ob.Name); un {
 			nUnclaimed++
 			unclaimedNames = append(unclaimedNames, r.Ob.Name)
 			continue
